@@ -12,7 +12,7 @@ KEYS = ("reaction", "solved", "solved_by", "issue", "rules", "confidence", "inpu
 
 def mcs_inputs(ctx, n):
     mix = pipeline.workload_mix(ctx)
-    rows = [(inp, r) for inp, r in zip(mix["inputs"], mix["out"] or []) if r.get("solved_by") == "mcs-based" and len(inp) < 160]
+    rows = [(inp, r) for inp, r in zip(mix["inputs"], mix["out"] or []) if r.get("solved_by") == "mcs-based" and pipeline.is_small(inp, 30)]
     rng = ctx.rng
     rng.shuffle(rows)
     picked = [inp for inp, _ in rows[:n]]
@@ -64,6 +64,10 @@ def statement(ctx, inputs, base, tr, search, graph):
         return False
     affected = set(tr["affected"])
     for i, (r, r0) in enumerate(zip(tr["out"], base["out"])):
+        if pipeline.hit_by_real_timeout(r) or pipeline.hit_by_real_timeout(r0):
+            # a genuine wall-clock timeout (machine load) hit this row in one of the two runs: it is an affected row
+            ctx.count("row-hit-by-real-timeout")
+            affected = affected | {str(i)}
         if str(i) in affected:
             if r.get("solved"):
                 ok = chem.truly_balanced(r["reaction"]) is True
